@@ -408,13 +408,13 @@ class Builder(object):
         if fileName:
             self.fileName = fileName
         if mode:
-            self.mode.extend[mode]
+            self.mode.extend(mode)
         if metas:
-            self.metas.extend[metas]
+            self.metas.extend(metas)
         if preloads:
-            self.preloads.extend[preloads]
+            self.preloads.extend(preloads)
         if behaviors:
-            self.behaviors.extend[behaviors]
+            self.behaviors.extend(behaviors)
 
         if self.behaviors: #import behavior package/module
             for behavior in self.behaviors:
@@ -3596,14 +3596,14 @@ class Builder(object):
         index += 1
         if connective not in ('is', ):
             msg = "ParseError: Need status invalid connective '%s'" %\
-                (kind, connective)
+                (connective, )
             raise excepting.ParseError(msg, tokens, index)
 
         status = tokens[index]  # participle
         index += 1
         if status.capitalize() not in StatusValues:
             msg = "ParseError: Need status invalid status '%s'" %\
-                (kind, status)
+                (status, )
             raise excepting.ParseError(msg, tokens, index)
         status = StatusValues[status.capitalize()] #replace name with value
 
@@ -3989,7 +3989,7 @@ class Builder(object):
         if index == (len(tokens) - 1): #only one more token so it must be value
             value = tokens[index]
             if value in Reserved:  # ending token not valid value
-                msg = "ParseError: Encountered reserved '{0}' instead of value." % (value)
+                msg = "ParseError: Encountered reserved '{0}' instead of value.".format(value)
                 raise excepting.ParseError(msg, tokens, index)
             index +=1 #eat token
             field = 'value' #default field
@@ -3997,7 +3997,7 @@ class Builder(object):
         else: #more than one so first may be field and second token may be value
             field = tokens[index]
             if field in Reserved:  # ending token not valid field
-                msg = "ParseError: Encountered reserved '{0}' instead of field." % (field)
+                msg = "ParseError: Encountered reserved '{0}' instead of field.".format(field)
                 raise excepting.ParseError(msg, tokens, index)
             index += 1
             value = tokens[index]
@@ -4021,7 +4021,7 @@ class Builder(object):
 
             value = tokens[index]
             if value in Reserved:  # ending token before valid value
-                msg = "ParseError: Encountered reserved '{0}' instead of value." % (value)
+                msg = "ParseError: Encountered reserved '{0}' instead of value.".format(value)
                 raise excepting.ParseError(msg, tokens, index)
             index += 1
             data[field] = Convert2StrBoolPathCoordPointNum(value) #convert to BoolNumStr, load data
